@@ -54,9 +54,36 @@ def _norm_sq(fr: Frame, v) -> Any:
     return None
 
 
+def _quantified(fr: Frame, e: ast.Call, env):
+    """all(<elt> for v in <iter>) / any(...): the element condition is evaluated once with v bound to a generic
+    element symbol; the result is an atom that remembers (iter value, element guard) in ev.comp_registry."""
+    if not (isinstance(e.func, ast.Name) and e.func.id in ("all", "any") and len(e.args) == 1 and not e.keywords):
+        return None
+    c = e.args[0]
+    if not isinstance(c, (ast.GeneratorExp, ast.ListComp)) or len(c.generators) != 1:
+        return None
+    gen = c.generators[0]
+    if gen.ifs or not isinstance(gen.target, ast.Name):
+        return None
+    r = fr.lk_resolve(e.func)
+    if r.kind != "dep":
+        return None
+    itv = fr.expr(gen.iter, env)
+    elem = fr.ev.symbol("elem!" + gen.target.id)
+    env2 = dict(env)
+    env2[gen.target.id] = elem
+    cond = fr.truth(fr.expr(c.elt, env2))
+    key = (e.func.id, vkey(itv), cond.key)
+    fr.ev.comp_registry[repr(key)] = (e.func.id, itv, elem, cond)
+    return g_atom(("quantified", repr(key)), f"{e.func.id}({cond} for {gen.target.id} in {str(itv)[:40]})")
+
+
 def dispatch_call(fr: Frame, e: ast.Call, env, guard: G, stmt):
     ev = fr.ev
     f = e.func
+    q = _quantified(fr, e, env)
+    if q is not None:
+        return q
     args = [fr.expr(a, env) for a in e.args]
     kwargs = {k.arg: fr.expr(k.value, env) for k in e.keywords if k.arg is not None}
 
@@ -373,7 +400,11 @@ def _known(fr: Frame, name: str, e, args, kwargs, env, guard, stmt):
     if name in ("np.argmax", "np.argmin"):
         return lift(lambda v: anf.opaque(name[3:], R(v), array=False), a(0))
     if name == "py.len":
-        return lift(lambda v: ev.length_of(v), a(0))
+        def ln(v):
+            r = ev.length_of(v)
+            ev.length_values.add(r.key)         # a length is a non-negative integer
+            return r
+        return lift(ln, a(0))
     if name == "py.int":
         def to_int(v):
             r = R(v)
@@ -401,6 +432,8 @@ def _known(fr: Frame, name: str, e, args, kwargs, env, guard, stmt):
         return NONE
     if name == "np.median":
         return lift(lambda v: anf.opaque("median", R(v), array=False), a(0))
+    if name == "np.where" and len(args) == 1 and isinstance(a(0), G):
+        return a(0)          # x[np.where(mask)] selects the same rows as x[mask]
     if name == "np.where" and len(args) == 3:
         c = a(0)
         if isinstance(c, G):
@@ -410,20 +443,7 @@ def _known(fr: Frame, name: str, e, args, kwargs, env, guard, stmt):
     return _opaque_call(fr, name, args, kwargs)
 
 
-_INT_FNS = {"argmax", "argmin", "int", "ceil", "floor", "len", "round"}
-
-
-def _integer_valued(r: Rat) -> bool:
-    """Polynomial with integer coefficients over integer-valued atoms (indices, counts)."""
-    if r.den != {(): 1}:
-        return False
-    for m, c in r.num.items():
-        if c.denominator != 1:
-            return False
-        for at, _e in m:
-            if not (at.kind == "fn" and at.name in _INT_FNS):
-                return False
-    return True
+_integer_valued = anf.integer_valued
 
 
 def _sum_items(fr: Frame, v: Vec) -> Rat:
